@@ -132,7 +132,9 @@ def cube(run, periods, keyidx):
                         # a code that matches nothing, and malformed codes
                         compare(run, otp, key, alg, digits, period, "0" * digits if "0" * digits not in codes.values() else "1" * digits, t, window, skew, last, "cube")
                         if (t + window) % 7 == 0:
-                            for bad in ("12345", "1234567" if digits == 6 else "123456789", "12a456"[:digits].ljust(digits, "x"), "", " ", codes[cur][:-1], codes[cur] + "0"):
+                            good = codes[min(max(cur, lo), hi)]
+                            for bad in ("12345", "1234567" if digits == 6 else "123456789", "12a456"[:digits].ljust(digits, "x"), "", " ", codes[cur][:-1], codes[cur] + "0",
+                                        good + "x", good[:3] + "." + good[3:], "+" + good, good[:1] + "a" + good[1:], (good[:2] + "_" + good[2:]).encode(), good + "\u0661", "\uff11" + good[1:]):
                                 compare(run, otp, key, alg, digits, period, bad, t, window, skew, last, "malformed")
                             # decorated spellings of a valid code
                             code = codes[min(max(cur, lo), hi)]
@@ -166,7 +168,8 @@ def randoms(run, part):
         period = rng.choice([1, 7, 30, 30, 60, rng.randint(1, 3600)])
         key = H.pw_bytes(rng, rng.choice([10, 20, 32, 64]), "binary")
         otp = TOTP(key=key, format="raw", alg=alg, digits=digits, period=period)
-        t = rng.choice([rng.randrange(0, 2 ** 31), rng.randrange(2 ** 31, 2 ** 40), rng.randrange(0, 5 * period)])
+        t = rng.choice([rng.randrange(0, 2 ** 31), rng.randrange(2 ** 31, 2 ** 40), rng.randrange(0, 5 * period), rng.randrange(0, 5 * period),
+                        rng.choice([2 ** 53, 2 ** 54, 2 ** 60]) // period * period + rng.choice([0, 0, period - 1, 1]), rng.randrange(2 ** 53, 2 ** 62)])
         window = rng.choice([0, 1, period - 1, period, period + 1, 2 * period, rng.randint(0, 5 * period), 45 if period == 30 else 10])
         window = max(0, min(window, 40 * period))
         skew = rng.choice([0, 0, rng.randint(-3 * period, 3 * period)])
@@ -220,6 +223,10 @@ def randoms(run, part):
         for last in (None, c1 - 1, c1, c1 + 1, c2 - 1, c2, 0):
             compare(run, otp, key, "sha1", 6, 1, code, t0, window, 0, last, "colliding")
             run.evaluations += 1
+            # the same with the attempt made exactly at the later of the two counters (the "expected" one), and one step after the earlier one
+            for tt, ww in ((c2, c2 - c1 + 3), (c1 + 1, c2 - c1 + 3), (c2, c2 - c1)):
+                compare(run, otp, key, "sha1", 6, 1, code, tt, ww, 0, last, "colliding")
+                run.evaluations += 1
         run.distinct.add("colliding-codes")
         if len(run.samples) < 12 and found == 1:
             run.samples.append(dict(colliding=dict(key=key.hex(), counters=[c1, c2], code=code, time=t0, window=window)))
